@@ -83,6 +83,20 @@ CHECKS["C04"] = dict(
     note="I/O source kinds (path, URL, bytes, open file) are exercised only in the CLI replay. POSIX exit-status contract (mod 256) is a stub.",
     ref="DESIGN.md 5/C04")
 
+CHECKS["C02"] = dict(
+    technique="solver-based checking: z3 (SMT) over encodings regenerated from the live tree - validator functions and bound/length facets "
+              "translated from their AST into integer/sequence terms, compiled pattern objects translated (sre parse tree -> z3 regular "
+              "expressions) and compared with the XSD productions; CrossHair symbolic execution for whitespace normalisation and facet objects",
+    category="model_checking",
+    text="Value ranges: for ALL integers (unbounded) the validators+bound facets of each of the 13 integer built-ins (both XSD versions) "
+         "accept exactly the XSD range; bound and length facet classes accept exactly per their definition for all values/bounds. Lexical: "
+         "for 18 pattern-defined types per version the implementation's regex (type.patterns, elementpath datatype patterns, validator "
+         "patterns) equals the XSD production on all strings up to the length bound (both inclusions, unsat). Whitespace: normalize() equals "
+         "the XSD whiteSpace processing for every string of <=2 (3) arbitrary characters and for longer strings over a whitespace alphabet.",
+    note="Stubs: int()/float()/Decimal() C parsers taken by their documented grammar; date/time field ranges, float rounding, list/union "
+         "composition and characters above U+2FFFF outside. Known findings (open): integer literals via int(), blanks inside xs:decimal.",
+    ref="DESIGN.md 5/C02")
+
 NOT_APPLICABLE = {
     "C18": "quantifies over thread interleavings; no engine of this family here executes Python threads symbolically (CrossHair is "
            "single-threaded); see DESIGN.md section 6",
